@@ -159,6 +159,8 @@ def cp_als(  # noqa: PLR0912,PLR0913,PLR0915
         for n in dimorder:
             if init.factor_matrices[n].shape != (input_tensor.shape[n], rank):
                 assert False, f"Mode {n} of the initial guess is the wrong size"
+        # The guess handed back is independent of the caller's object
+        init = init.copy()
     elif isinstance(init, str) and init.lower() == "random":
         factor_matrices = []
         for n in range(N):
